@@ -3,6 +3,9 @@
  * texts working on offsets, and spec_json_find(): on a valid object, the offset of the value of the first top-level
  * member whose name -- after decoding the simple escapes \" \\ \/ \b \f \n \r \t -- equals the key (a name containing
  * a \u escape never matches), else the document length.  -1: not a valid object.
+ * STATUS: used only by a native cross-check so far.  The bounded symbolic comparison planned in DESIGN 3.17 (json_find /
+ * skip_value against this reference on all documents of <= 7..12 bytes) does not finish in cbmc 6.11 (symex > 10 min
+ * even for 7-byte documents with one bracket), so no obligation group includes this file yet.
  * Loops are bounded by JSS_MAX (the harness's bound on the document size); nesting by JSS_DEPTH (-2: too deep).
  */
 #ifndef JSON_SPEC_H_
